@@ -544,3 +544,11 @@ def normalised_body(f: FuncInfo) -> str:
     node = T().visit(node)
     body = node.body or [ast.Pass()]
     return "\n".join(ast.unparse(s) for s in body)
+
+
+def unconditional_in_loop(g, header: int, A: Iterable[int]) -> bool:
+    """Every complete iteration of the loop headed by *header* passes a node of A."""
+    A = set(A)
+    starts = [d for d, lab in g.succ[header] if lab in ("loop", "T")]
+    r = g.reachable(starts, blocked_nodes=A, follow_exc=False)
+    return header not in r
